@@ -2,6 +2,7 @@
 from trie import HexaryTrie
 
 from ..core import Violation, deep, hx
+from ..simdb import STORE_FLAVOURS
 from ..hgen import HistoryGen, make_pool, make_values, probe_keys
 from ..hworld import HWorld
 
@@ -77,7 +78,7 @@ def generate(rng):
     cache = rng.choice([0, 1, 2, 8, 4096])
     g = HistoryGen(rng, pool, values, probes, batches=True, aborts=True, reopen=True, lookups=(0, 0))
     cmds = g.history(rng.randint(10, deep(80, 200)))
-    return {"prop": ID, "cfg": {"prune": prune, "cache": cache, "rc": rng.choice(["defaultdict", "defaultdict", "counter"]), "store": rng.choice(["min", "min", "dict"])}, "cmds": cmds}
+    return {"prop": ID, "cfg": {"prune": prune, "cache": cache, "rc": rng.choice(["defaultdict", "defaultdict", "counter"]), "store": rng.choice(STORE_FLAVOURS)}, "cmds": cmds}
 
 
 def execute(case, st):
